@@ -99,3 +99,99 @@ def check_c14(root, pid, tier, seed, replay):
     return lsv.emit(root, res, st)
 
 SPECIAL = {'C14': check_c14}
+
+# ------------------------------------------------------------------------------------------------ C15
+def check_c15(root, pid, tier, seed, replay):
+    res, st = lsv.decide(root, pid, tier, seed, replay)
+    stats = res.stats
+    if not replay:
+        # floats: round trip of to_lean_string() through parse() on the real crate (ryu is an oracle for the model)
+        plan = [('f32', [0, 2 ** 32, 1]) if tier == 'thorough' else ('f32', [seed % 4099, (2 ** 32) // 4099, 4099]),
+                ('f64', [seed, 20_000_000 if tier == 'thorough' else 1_000_000])]
+        specials = [0x7fc00000, 0xffc00000, 0x7f800000, 0xff800000, 0, 0x80000000, 1, 0x80000001, 0x007fffff, 0x00800000, 0x7f7fffff, 0x3f800000]
+        txt = 'case floats\n' + ''.join('op plain from_int f32 %d\n' % b for b in specials) + \
+              ''.join('op try from_int f64 %d\n' % b for b in [0x7ff8000000000000, 0x7ff0000000000000, 0xfff0000000000000, 0, 0x8000000000000000, 1, 0x000fffffffffffff, 0x0010000000000000, 0x7fefffffffffffff]) + 'end\n'
+        mtxt, itxt, errs = lsv.run_cases(root, txt, 300)
+        if itxt:
+            _, _, mons = lsv.parse_trace(itxt)
+            for (cid, step, name, props, detail) in mons:
+                if name == 'float_roundtrip':
+                    rp = lsv.write_replay(root, pid, 'float_special', txt)
+                    res.violations.append(('monitor float_roundtrip step %d: %s' % (step, detail), rp, True, name))
+        sweeps = []
+        for kind, args in plan:
+            n, mm, lines, out = run_sweep(root, [kind] + args, 3000)
+            sweeps.append({'kind': kind, 'args': [str(a) for a in args], 'checked': n, 'mismatches': mm})
+            stats['steps'] += n
+            if mm != 0:
+                stats['monitor_failures'] += 1
+                bits = re.search(r'bits=(\d+)', lines[0]).group(1) if lines else '0'
+                case = 'case sweep_%s\nop plain from_int %s %s\nend\n' % (kind, kind, bits)
+                rp = lsv.write_replay(root, pid, 'sweep_%s' % kind, case)
+                res.violations.append(('sweep %s: %s' % (kind, lines[0] if lines else out[-200:]), rp, bool(lines), 'float_roundtrip'))
+        res.cov['float_sweeps'] = sweeps
+    return lsv.emit(root, res, st)
+
+# ------------------------------------------------------------------------------------------------ C20
+CONFIGS = {
+    'default-release': (['--release'], 'release'),
+    'default-dev': ([], 'debug'),
+    'no-default-features-release': (['--release', '--no-default-features'], 'release'),
+    'no-default-features-dev': (['--no-default-features'], 'debug'),
+    'all-features-release': (['--release', '--features', 'ls-all'], 'release'),
+    'all-features-dev': (['--features', 'ls-all'], 'debug'),
+}
+
+def build_config(root, name):
+    flags, prof = CONFIGS[name]
+    tgt = os.path.join(root, '.cache', 'harness-target-' + name)
+    rc, out = lsv.sh(['cargo', 'build', '--offline', '--target-dir', tgt, '--bin', 'runner'] + flags, 1500,
+                     cwd=os.path.join(root, 'harness'), env={'RUSTFLAGS': '--cfg lean_string_verif'})
+    return rc == 0, os.path.join(tgt, prof, 'runner'), out[-1500:]
+
+def check_c20(root, pid, tier, seed, replay):
+    res, st = lsv.decide(root, pid, tier, seed, replay)
+    stats = res.stats
+    if not replay:
+        names = ['default-dev', 'all-features-dev', 'no-default-features-release'] if tier == 'quick' else \
+                ['default-dev', 'no-default-features-release', 'no-default-features-dev', 'all-features-release', 'all-features-dev']
+        ncases = 1500 if tier == 'quick' else 20000
+        txt = lsv.corpus_text(root) + lsv.gen_text(root, seed * 1000 + 77, ncases // 2, 'valid', 0) + \
+              lsv.gen_text(root, seed * 1000 + 78, ncases // 4, 'hostile', 10 ** 6) + lsv.gen_text(root, seed * 1000 + 79, ncases // 4, 'faults', 2 * 10 ** 6)
+        cases, order = lsv.split_cases(txt)
+        cf = os.path.join(root, '.cache', 'tmp', 'c20_%d.cases' % os.getpid())
+        os.makedirs(os.path.dirname(cf), exist_ok=True)
+        open(cf, 'w').write(txt)
+        ref_rn = os.path.join(root, '.cache', 'harness-target', 'release', 'runner')
+        rc, ref = lsv.sh([ref_rn, cf], 1800)
+        ref_lines = [l for l in ref.splitlines() if l[:2] in ('R ', 'E ')]
+        cfgs = []
+        for name in names:
+            ok, rn, msg = build_config(root, name)
+            res.oblige('build:' + name, ok, msg if not ok else '')
+            if not ok:
+                continue
+            rc, out = lsv.sh([rn, cf], 1800)
+            lines = [l for l in out.splitlines() if l[:2] in ('R ', 'E ')]
+            _, _, mons = lsv.parse_trace(out)
+            nm = 0
+            for (cid, step, mname, props, detail) in mons:
+                nm += 1
+                if len(res.violations) < 5:
+                    rp = lsv.write_replay(root, pid, '%s_%s' % (name, cid), cases.get(cid, ''))
+                    res.violations.append(('config %s: monitor %s at case %s step %d: %s' % (name, mname, cid, step, detail[:160]), rp, True, mname))
+            same = (lines == ref_lines)
+            if not same and len(res.violations) < 5:
+                k = next((i for i, (a, b) in enumerate(zip(lines, ref_lines)) if a != b), min(len(lines), len(ref_lines)))
+                cid = (lines[k] if k < len(lines) else ref_lines[k]).split()[1]
+                rp = lsv.write_replay(root, pid, '%s_diff_%s' % (name, cid), '# trace of configuration %s differs from default-release\n' % name + cases.get(cid, ''))
+                res.violations.append(('config %s behaves differently from default-release at case %s' % (name, cid), rp, True, 'config_diff'))
+            stats['steps'] += len(lines)
+            cfgs.append({'config': name, 'trace_lines': len(lines), 'identical_to_default_release': same, 'monitor_failures': nm})
+        os.remove(cf)
+        res.cov['configurations'] = cfgs
+        res.cov['size_of_checks'] = 'const assertions of src/lib.rs:39-44 and src/repr.rs:35-40 hold in every configuration that built'
+    return lsv.emit(root, res, st)
+
+SPECIAL['C15'] = check_c15
+SPECIAL['C20'] = check_c20
